@@ -3,13 +3,13 @@ from engine_api import Cond
 PROPERTY = 'C15'
 LEVEL = 'other'
 ASSUMPTIONS = [
-    'call graphs: a fixed list of 17 graphs (function->function, depth 3 with equally named locals, direct recursion with 0<=n<=4, mutual recursion, parameters bound by name in permuted order, calls in loop conditions / if conditions / where clauses, instance operation with self and attribute writes, class operation, bridge of a user external entity, derived attribute re-read after its inputs changed, bare return / no return, operation calling itself on self, return inside while / nested for each loops with statements behind the loop)',
+    'call graphs: a fixed list of 19 graphs (function->function, depth 3 with equally named locals, direct recursion with 0<=n<=4, mutual recursion, parameters bound by name in permuted order, calls in loop conditions / if conditions / where clauses, instance operation with self and attribute writes, class operation, bridge of a user external entity, derived attribute re-read after its inputs changed, bare return / no return, operation calling itself on self, return inside while / nested for each loops with statements behind the loop, one external entity with three bridges in non-alphabetical row order, invocation statements with and without the transform / bridge keyword)',
     'fixture: the BridgePoint model of tests/test_bridgepoint/test_interpret.py (copied to fixtures/), loaded outside the tracer; bodies overwritten before mk_component; an integer attribute val is appended to the built class',
     'arguments a, b and the attribute values are symbolic unbounded integers, n in 0..4; nested oal.parse calls run outside the tracer',
     'enumerator / constant values: model text with its S_ENUM rows in every order (text realised)',
 ]
 GRAPHS = ['fn_fn', 'depth3_scopes', 'recursion', 'mutual', 'permuted_names', 'in_conditions', 'in_where', 'instance_op', 'class_op',
-          'bridge', 'derived', 'return_forms', 'op_calls_op', 'side_effect_operands', 'derived_other', 'same_label', 'return_in_loops']
+          'bridge', 'derived', 'return_forms', 'op_calls_op', 'side_effect_operands', 'derived_other', 'same_label', 'return_in_loops', 'multi_bridge', 'statement_keywords']
 
 
 def conditions(tier, seed):
